@@ -137,6 +137,30 @@ def spec_of_kind(kind):
     return {"p": [kind]}
 
 
+def tight_collection_spec(kind, values):
+    from ..wire import tag
+    prims, arr, obj = set(), False, False
+    for v in values:
+        if tag(v) != kind:
+            return None
+        for e in (v if kind == "array" else v.values()):
+            t = tag(e)
+            if t == "array":
+                arr = True
+            elif t == "object":
+                obj = True
+            else:
+                prims.add(t)
+    if not (prims or arr or obj):
+        return None
+    elem = {"p": sorted(prims)}
+    if arr:
+        elem["a"] = {"k": {}, "u": {"inf": "any"}}
+    if obj:
+        elem["o"] = {"k": {}, "u": {"inf": "any"}}
+    return {"p": [], ("a" if kind == "array" else "o"): {"k": {}, "u": elem}}
+
+
 CLOSURE_TEMPLATES = {
     "for_each": ["-> |_k, _v| { null }", "-> |k, v| { .out = [k, v] }", "-> |_k, v| { v }"],
     "filter": ["-> |_k, _v| { true }", "-> |_k, v| { v != null }", "-> |k, _v| { k != 0 && k != \"a\" }"],
@@ -170,11 +194,18 @@ class Call:
             s += " " + self.closure
         return s
 
-    def schema(self, typed=True):
+    def schema(self, typed=True, rows=None):
+        """External event kind. rows (optional): the argument rows that will be delivered — collection
+        slots are then declared with the tightest *element* kind all rows conform to (array<integer>
+        rather than array<any>), so that functions deriving their result type from the element kinds
+        of their arguments (append, push, concat, flatten, slice, zip, ...) are put to the test."""
         known = {}
         for i, (p, kind, form) in enumerate(self.used):
             if form == "event":
-                known["a%d" % i] = spec_of_kind(kind) if typed else "any"
+                spec = spec_of_kind(kind) if typed else "any"
+                if typed and rows is not None and kind in ("array", "object"):
+                    spec = tight_collection_spec(kind, [r[i] for r in rows]) or spec
+                known["a%d" % i] = spec
         return {"p": [], "o": {"k": known, "u": {"p": ["undefined"]}}}
 
 
